@@ -21,7 +21,7 @@ def build(chains, root):
     jobs = []
     for i, ch in enumerate(chains):
         js = ch.lang == "javascript"
-        jobs.append(dict(cmd="run", lang=ch.lang, files={"p.js" if js else "p.py": ch.render()}, dir=os.path.join(root, "r%04d" % i),
+        jobs.append(dict(cmd="run", lang=ch.lang, files={"p.js": ch.render()} if js else ch.files(), dir=os.path.join(root, "r%04d" % i),
                          settings=T.SETTINGS_JS if js else (T.SETTINGS_SPLIT if ch.split else T.SETTINGS),
                          flags=["--nomock"], export=["gir", "taint"], timeout=900, _chain=ch))
     return jobs
@@ -36,7 +36,7 @@ def case_of(job, r):
     # rule kind object_call: the method calls named *_src are the configured sources
     stmts = [x["stmt_id"] for x in rows if x.get("operation") == "object_call_stmt" and str(x.get("field") or "").endswith("_src")]
     return {"name": ch.name, "rows": [G.machine_row(x) for x in rows], "temps": G.temps_of(rows), "expected": [], "start": "",
-            "check": "taint", "flows": flows, "param_sources": params, "stmt_sources": stmts, "source": ch.render()}
+            "check": "taint", "flows": flows, "param_sources": params, "stmt_sources": stmts, "source": "\n".join("# --- %s\n%s" % kv for kv in sorted(ch.files().items())) if ch.lang == "python" else ch.render()}
 
 
 def run(tier, seed):
